@@ -5,21 +5,24 @@
 EXTENDS UcfgReify, Layers, Json, SequencesExt
 
 \* ---------- universe ----------
-Tys == {"I","PI","S","PS","LI","LS","MI","MS"}
+Tys == {"I","PI","S","PS","LI","LS","MI","MS","MD","MB"}
 VSets == {{}, {"nonzero"}, {"positive"}, {"min2"}, {"max5"}, {"required"}}
 Olds(ty) ==
   CASE ty = "I" -> {IntV(0), IntV(3), IntV(-1)}
     [] ty = "PI" -> {NilPtr, PtrV(IntV(0)), PtrV(IntV(3)), PtrV(IntV(-1))}
-    [] ty = "S" -> {InV(0,0), InV(3,1)}
-    [] ty = "PS" -> {NilPtr, PtrV(InV(0,0)), PtrV(InV(3,1))}
+    [] ty = "S" -> {InV(0,0), InV(3,1), InV(13,1)}
+    [] ty = "PS" -> {NilPtr, PtrV(InV(0,0)), PtrV(InV(3,1)), PtrV(InV(13,1))}
     [] ty = "LI" -> {SliceV(TRUE, <<>>), SliceV(FALSE, <<>>), SliceV(FALSE, <<IntV(3)>>), SliceV(FALSE, <<IntV(0), IntV(6)>>)}
-    [] ty = "LS" -> {SliceV(TRUE, <<>>), SliceV(FALSE, <<InV(3,1)>>), SliceV(FALSE, <<InV(0,0), InV(3,1)>>)}
+    [] ty = "LS" -> {SliceV(TRUE, <<>>), SliceV(FALSE, <<InV(3,1)>>), SliceV(FALSE, <<InV(0,0), InV(3,1)>>), SliceV(FALSE, <<InV(13,1), InV(3,1)>>)}
     [] ty = "MI" -> {MapV(TRUE, <<>>), MapV(FALSE, <<>>), MapV(FALSE, [k \in {"k"} |-> IntV(3)]), MapV(FALSE, [k \in {"k","j"} |-> IF k = "k" THEN IntV(0) ELSE IntV(6)])}
-    [] ty = "MS" -> {MapV(TRUE, <<>>), MapV(FALSE, [k \in {"k"} |-> InV(3,1)]), MapV(FALSE, [k \in {"k"} |-> InV(0,0)])}
+    [] ty \in {"MS", "MD", "MB"} -> {MapV(TRUE, <<>>), MapV(FALSE, [k \in {"k"} |-> InV(3,1)]), MapV(FALSE, [k \in {"k"} |-> InV(0,0)]),
+                                    MapV(FALSE, [k \in {"k"} |-> InV(13,1)]), MapV(FALSE, [k \in {"d"} |-> InV(7,7)])}
 
 FVals == {None, Nil, CI(0), CI(3), CI(7), CI(-1), CS("x"),
           N([k \in {"x"} |-> CI(3)], <<>>), N([k \in {"x"} |-> CI(1)], <<>>),
           N([k \in {"x","y"} |-> IF k = "x" THEN CI(3) ELSE CS("x")], <<>>), Empty,
+          N([k \in {"x"} |-> CI(13)], <<>>), N(<<>>, <<N([k \in {"x"} |-> CI(13)], <<>>)>>), N([k \in {"k"} |-> N([q \in {"x"} |-> CI(13)], <<>>)], <<>>),
+          N([k \in {"d"} |-> N([q \in {"y"} |-> CI(4)], <<>>)], <<>>),
           N(<<>>, <<CI(3)>>), N(<<>>, <<CI(0), CI(6)>>), N(<<>>, <<Nil, CI(3)>>),
           N(<<>>, <<N([k \in {"x"} |-> CI(3)], <<>>)>>), N(<<>>, <<N([k \in {"x"} |-> CI(1)], <<>>)>>),
           N([k \in {"k"} |-> CI(3)], <<>>), N([k \in {"k"} |-> CI(0)], <<>>),
@@ -34,31 +37,32 @@ MkCfg(g, f, h) ==
   N([k \in ks |-> CASE k = "g" -> g [] k = "f" -> f [] k = "h" -> h], <<>>)
 
 
-VARIABLES ty, vs, pol, cs
-vars == <<ty, vs, pol, cs>>
-Out(D, old, cfg) == Unpack(ty, vs, old, cfg, D, pol)
+VARIABLES ty, vs, pol, iv, cs
+vars == <<ty, vs, pol, iv, cs>>
+Out(D, old, cfg) == Unpack(ty, vs, old, cfg, D \cup {iv}, pol)
 Case(old, fv, gvv, hv) ==
   LET cfg   == MkCfg(gvv, fv, hv)
       ideal == Out({}, old, cfg)
       alts  == {[devs |-> DS, out |-> Out(DS, old, cfg)] : DS \in DevSets}
       diff  == {x \in alts : x.out # ideal}
-  IN [ty |-> ty, vs |-> vs, pol |-> pol, old |-> old, cfg |-> cfg, exp |-> [ideal |-> ideal, alts |-> SetToSeq(diff)]]
+  IN [ty |-> ty, vs |-> vs, pol |-> pol, iv |-> iv, old |-> old, cfg |-> cfg, exp |-> [ideal |-> ideal, alts |-> SetToSeq(diff)]]
 Init == ty \in Tys /\ vs \in VSets /\ cs = <<>>
         /\ pol \in (IF ty \in {"LI", "LS"} THEN {"default", "append", "prepend", "replace"} ELSE {"default"})
-Next == /\ cs = <<>> /\ UNCHANGED <<ty, vs, pol>>
+        /\ iv \in (IF ty \in {"S", "PS", "LS", "MS"} THEN IVs ELSE {"iv:plain"})
+Next == /\ cs = <<>> /\ UNCHANGED <<ty, vs, pol, iv>>
         /\ \E old \in Olds(ty), fv \in FVals, gvv \in GVals, hv \in HVals :
               cs' = <<old, fv, gvv, hv>> /\ PrintT(ToJson(Case(old, fv, gvv, hv)))
-View == <<ty, vs, pol, cs = <<>> >>
+View == <<ty, vs, pol, iv, cs = <<>> >>
 
 (* ---- model-level statements (MC runs bind Dev through Groups: Known) ------------------- *)
-Res == Unpack(ty, vs, cs[1], MkCfg(cs[3], cs[2], cs[4]), Known, pol)
+Res == Unpack(ty, vs, cs[1], MkCfg(cs[3], cs[2], cs[4]), Known \cup {iv}, pol)
 \* C04: a successful Unpack returns only validated values
-OkIsValid == cs # <<>> => (IsOk(Res) => ValidRes(ty, vs, Res.ok.f))
+OkIsValid == cs # <<>> => (IsOk(Res) => ValidRes(ty, vs, Res.ok.f, iv))
 \* C13: fields without a setting keep their value, fields with one take it
 Frame == cs # <<>> => (IsOk(Res) =>
            /\ Res.ok.g = (IF cs[3] = None THEN IntV(1) ELSE IntV(cs[3].i))
            /\ Res.ok.h = (IF cs[4] = None THEN IntV(1) ELSE IntV(cs[4].i))
-           /\ (IsNilC(cs[2]) => Res.ok.f = cs[1] \/ ty \in {"S"} )
+           /\ (IsNilC(cs[2]) => Res.ok.f = cs[1] \/ ty \in {"S", "MD", "MB"} )
            \* lists combine by the active policy: lengths
            /\ (ty \in {"LI", "LS"} /\ ~IsNilC(cs[2]) /\ pol \in {"append", "prepend"} =>
                  Len(Res.ok.f.xs) = Len(cs[1].xs) + Len(CastArr(cs[2]))))
